@@ -1595,8 +1595,13 @@ impl<'s> Worker<'s> {
         // have sufficient read permissions to list the directory.
         // In that case we still want to provide the closure with a valid
         // entry before passing the error value.
-        let readdir = work.read_dir();
+        //
+        // A directory at the maximum depth is never listed, so it is not
+        // opened either: failing to open it is not an error of this walk.
         let depth = work.dent.depth();
+        let at_max_depth = self.max_depth.map_or(false, |max| depth >= max);
+        let readdir =
+            if at_max_depth { None } else { Some(work.read_dir()) };
         let state = self.visitor.visit(Ok(work.dent));
         if !state.is_continue() {
             return state;
@@ -1606,15 +1611,12 @@ impl<'s> Worker<'s> {
         }
 
         let readdir = match readdir {
-            Ok(readdir) => readdir,
-            Err(err) => {
+            None => return WalkState::Skip,
+            Some(Ok(readdir)) => readdir,
+            Some(Err(err)) => {
                 return self.visitor.visit(Err(err));
             }
         };
-
-        if self.max_depth.map_or(false, |max| depth >= max) {
-            return WalkState::Skip;
-        }
         #[cfg(ripgrep_verif)]
         let readdir = crate::verif::readdir(readdir);
         for result in readdir {
